@@ -598,6 +598,9 @@ def run_property(pid, tier, seed, only=None, jobs=None):
             s.strategy is None for s in subs),
         "build": binfo.get("rebuilt", []),
     }
+    if getattr(mod, "LEVEL", "exploration") == "translation_validation":
+        coverage["programs"] = int(total_eval)
+        coverage["disagreements_checked"] = int(len(violations) + sum(known_total.values()))
     evid = {
         "property_id": pid, "tier": tier, "seed": int(seed),
         "level": getattr(mod, "LEVEL", "exploration"),
